@@ -136,6 +136,23 @@ func genC20(r *rand.Rand, t *Trace, thorough bool) {
 		}
 		qz, _ := comet.NewQuantizer([]comet.QuantizerType{comet.FullPrecision, comet.HalfPrecision, comet.Int8Precision}[ty])
 		qz.Train(train)
+		if q8, ok := qz.(*comet.Int8Quantizer); ok && absMax > 0 {
+			// the range may also come from a persisted value: a restored quantiser (SetAbsMax on a fresh one,
+			// or over a previously trained one) must behave exactly like one trained on the same data
+			switch r.Intn(3) {
+			case 1:
+				fresh, _ := comet.NewQuantizer(comet.Int8Precision)
+				q8 = fresh.(*comet.Int8Quantizer)
+				q8.SetAbsMax(absMax)
+				qz = q8
+				t.Stat("quant.int8_restored_fresh")
+			case 2:
+				other := [][]float32{{absMax * 3, -absMax / 2}}
+				q8.Train(other)
+				q8.SetAbsMax(absMax)
+				t.Stat("quant.int8_restored_over_trained")
+			}
+		}
 		orig := cloneVec(v)
 		stored, err := qz.Quantize(v)
 		var qi []int64
